@@ -12,7 +12,7 @@ RULE = ("(1) ovnievents output equals doc/user/emulation/events.md (build date l
         "event of the 8 models is accepted by ovniemu -l inside a minimal legal context (recipe) with a payload "
         "of the declared shape, and ovnidump prints its description with %{arg}/%fmt{arg} replaced by generated "
         "argument values, computed by an independent formatter of the template language, one event at a time and in generated sequences of listed events of all models over 1-3 streams (neighbouring events sharing category/value characters); task-model events are also probed from cooling and warming threads, kernel events from paused ones; the contexts use three CPU numberings (index = physical id, shifted, crossed), bystander threads that do not require the model, and every legal use repeated 130 (thorough: 1100) times when the reference model accepts the repetition; (3) every unlisted "
-        "three-character code over the 95 printable characters (8 x 95 x 95 codes, exhaustive; each without payload and with the well-formed payload and context of every listed event of the same category) is rejected, "
+        "three-character code over the 95 printable characters (8 x 95 x 95 codes, exhaustive; each without payload and with the well-formed payload and context of every listed event of the same category; a sample of values also right after each listed event of the category, i.e. in the state that event leaves behind: out of the CPU after KCO, region open, task running) is rejected, "
         "apart from OB? / OU? (value byte ignored) and the legacy code 6TC.  Non-trivial = listed event with "
         ">= 1 argument or unlisted code in an existing category; distinct = (model, code).")
 ASSUMPTIONS = ["legacy codes accepted with a warning: 6TC only (observed at the pinned commit); anything else accepted is reported",
@@ -338,6 +338,26 @@ def run_unlisted(case, ctx):
                 continue
             seen.add(key)
             shapes.append((pl, pre, extra))
+    # state left behind by a listed sibling: an unlisted code right *after* each listed event
+    # of the category (thread out of the CPU after KCO, region open after an enter, task
+    # running after Tx ...) must be refused as well; a sample of values per such context
+    after = []
+    seen = set()
+    for d in decls:
+        if d.model == m and d.mcv[1] == c and not d.jumbo:
+            pre, args, suf, extra = recipe(d.mcv, regs)
+            vals = args if args is not None else (gen_values(d, 0) if d.args else [])
+            sib = (d.mcv, vals) if d.args else d.mcv
+            pl = encode_args(d, vals).hex() if d.args else ""
+            key = (d.mcv,)
+            if key in seen:
+                continue
+            seen.add(key)
+            after.append((pl, list(pre) + [sib], extra))
+            if pl:
+                after.append(("", list(pre) + [sib], extra))
+    unl = [v for v in PRINTABLE if (m + c + v) not in bymcv]
+    sample = set(unl[::max(1, len(unl) // 8)]) | {v.swapcase() for (_, pr, _) in after for v in [(pr[-1][0] if isinstance(pr[-1], tuple) else pr[-1])[2]]}
     n = 0
     for v in PRINTABLE:
         mcv = m + c + v
@@ -347,7 +367,7 @@ def run_unlisted(case, ctx):
             continue        # value byte ignored (documented exception)
         if mcv == "6TC":
             continue        # legacy, accepted with a warning
-        for (pl, pre, extra) in shapes:
+        for (pl, pre, extra) in shapes + (after if v in sample else []):
             clk = 100
             evs = [T.OHx(clk, 0)]
             for x in pre:
